@@ -412,6 +412,15 @@ def run(ctx):
             T.add((cell[0] + 8, cell[1] + 8), [{'c': 'C', 'n': T.cols[0]}, {'c': 'S', 'n': rng.choice([8, 12, 2])}, mv('R', 3)], cell, plain=True, label='scale-set')
             T.add((cell[0] + 8, cell[1] + 16), [mv('D', 2), {'c': 'S', 'n': bad}, mv('R', 9)], None, plain=True, label='scale-refused')
             T.add((cell[0] + 8, cell[1] + 24), [mv('R', 5), mv('D', 3), {'c': 'S', 'n': 4}], cell, plain=True, label='after-refused-scale')
+        # other graphics statements between two DRAW statements leave the scale alone: VIEW (all forms), WINDOW
+        # (round-3 seeded change C33c reset the DRAW scale whenever a VIEW succeeded)
+        for between in ('VIEW', 'VIEW (%d,%d)-(%d,%d)' % (0, 0, W - 1, H - 1), 'VIEW SCREEN (%d,%d)-(%d,%d)' % (0, 0, W - 1, H - 1),
+                        'WINDOW'):
+            cell = cells[0]
+            T.add((cell[0] + 8, cell[1] + 8), [{'c': 'C', 'n': T.cols[0]}, {'c': 'S', 'n': rng.choice([8, 12, 2, 40])}, mv('R', 2)], cell, plain=True, label='scale-set')
+            T.add((cell[0] + 8, cell[1] + 24), [mv('R', 5), mv('D', 3)], cell, plain=True, label='after-other-statement')
+            T.tests[-1]['pre'] = [between] + list(T.tests[-1]['pre'])
+            T.add((cell[0] + 8, cell[1] + 40), [{'c': 'S', 'n': 4}], cell, plain=True, label='scale-reset')
         # attributes outside the mode's range
         for c in (g.nattr, g.nattr + 1, 255, 300):
             T.add((40, 40), [{'c': 'C', 'n': c}, {'c': 'R', 'n': 5, 'b': False, 'nn': False}, {'c': 'D', 'n': 3, 'b': False, 'nn': False}],
